@@ -17,7 +17,7 @@ From Coq Require Import Lia.
 From Verif Require Import Base.Prelude Base.Str Base.Float Base.GoVal Base.XReflect
   Schema.Regex Schema.Units Schema.Syntax Schema.Ops Schema.Wf Schema.Total Schema.XSyntax Schema.XOps Schema.XWf
   Proofs.MonoEq Proofs.C04Inv Proofs.OpsEq Proofs.C04NoPanic Proofs.C04Term Proofs.XOpsEq
-  Proofs.XStruct Proofs.XTotal Proofs.XExamples Proofs.XMono Proofs.XTerm
+  Proofs.XStruct Proofs.XTotal Proofs.XExamples Proofs.XMonoT Proofs.XTerm
   Proofs.C04Refuted Proofs.XEmbed Proofs.XWfEmbed.
 Open Scope string_scope.
 
